@@ -559,10 +559,6 @@ class io_epoll_context::read_sender {
       }
 
       if (result == -EAGAIN || result == -EWOULDBLOCK) {
-        if constexpr (is_stop_ever_possible) {
-          stopCallback_.construct(
-              get_stop_token(receiver_), cancel_callback{*this});
-        }
         UNIFEX_ASSERT(
             static_cast<completion_base*>(this)->enqueued_.load() == 0);
         static_cast<completion_base*>(this)->execute_ =
@@ -571,6 +567,14 @@ class io_epoll_context::read_sender {
         event.data.ptr = static_cast<completion_base*>(this);
         event.events = EPOLLIN | EPOLLRDHUP | EPOLLHUP;
         (void)epoll_ctl(context_.epollFd_.get(), EPOLL_CTL_ADD, fd_, &event);
+        // Register the stop callback only after the fd has been added to the
+        // epoll set: the callback (which may run right here if stop has
+        // already been requested) removes the fd again, and if it ran before
+        // EPOLL_CTL_ADD the registration would outlive the operation.
+        if constexpr (is_stop_ever_possible) {
+          stopCallback_.construct(
+              get_stop_token(receiver_), cancel_callback{*this});
+        }
         return;
       }
 
@@ -796,11 +800,6 @@ class io_epoll_context::write_sender {
       }
 
       if (result == -EAGAIN || result == -EWOULDBLOCK) {
-        if constexpr (is_stop_ever_possible) {
-          stopCallback_.construct(
-              get_stop_token(receiver_), cancel_callback{*this});
-        }
-
         UNIFEX_ASSERT(
             static_cast<completion_base*>(this)->enqueued_.load() == 0);
         static_cast<completion_base*>(this)->execute_ =
@@ -809,6 +808,12 @@ class io_epoll_context::write_sender {
         event.data.ptr = static_cast<completion_base*>(this);
         event.events = EPOLLOUT | EPOLLRDHUP | EPOLLHUP;
         (void)epoll_ctl(context_.epollFd_.get(), EPOLL_CTL_ADD, fd_, &event);
+        // As for reads: register the stop callback only once the fd is in
+        // the epoll set, so that a callback running right here removes it.
+        if constexpr (is_stop_ever_possible) {
+          stopCallback_.construct(
+              get_stop_token(receiver_), cancel_callback{*this});
+        }
         return;
       }
 
